@@ -403,7 +403,7 @@ func runC03(t *testing.T, c *choice.Stream, r *Result, opt RunOpt) {
 			script = append(script, simnet.Step{Label: "ping", OnPacket: nop}, simnet.Step{Label: "eos", Send: (&SPacket{Kind: "eos"}).Encode(cf)})
 		}
 		e.Sim.DrawStrategy()
-		e.Sim.StallProb = 0 // fault-free configuration: no simulator-made delays
+		e.Sim.StallProb = 0      // fault-free configuration: no simulator-made delays
 		e.Sim.MaxSteps = 4000000 // a deep exception chain costs a thousand decisions each time the error tree is walked
 		e.W.DeliverMode = c.Weighted("deliver", 3, 1, 3)
 		e.W.ChunkMax = c.Pick("chunkmax", 3, 16, 64, 1024)
